@@ -35,7 +35,7 @@ pub enum PK {
     UI,
 }
 
-pub const NPAIRS: usize = 24;
+pub const NPAIRS: usize = 150;
 
 macro_rules! pairs {
     ($( $i:literal : $S:ident => $D:ident , $k:ident ; )*) => {
@@ -83,6 +83,133 @@ pairs! {
     21: U32F32 => U64F64, USqrt;
     22: U9F23 => I32F32, UI;
     23: U32F32 => I64F64, UI;
+    // every other signed layout of the properties' scope (>= 9 integer bits, >= 23 fraction bits), same type
+    24: I40F24 => I40F24, Full;
+    25: I39F25 => I39F25, Full;
+    26: I38F26 => I38F26, Full;
+    27: I37F27 => I37F27, Full;
+    28: I36F28 => I36F28, Full;
+    29: I35F29 => I35F29, Full;
+    30: I34F30 => I34F30, Full;
+    31: I33F31 => I33F31, Full;
+    32: I31F33 => I31F33, Full;
+    33: I30F34 => I30F34, Full;
+    34: I29F35 => I29F35, Full;
+    35: I28F36 => I28F36, Full;
+    36: I27F37 => I27F37, Full;
+    37: I26F38 => I26F38, Full;
+    38: I25F39 => I25F39, Full;
+    39: I23F41 => I23F41, Full;
+    40: I22F42 => I22F42, Full;
+    41: I21F43 => I21F43, Full;
+    42: I20F44 => I20F44, Full;
+    43: I19F45 => I19F45, Full;
+    44: I18F46 => I18F46, Full;
+    45: I17F47 => I17F47, Full;
+    46: I15F49 => I15F49, Full;
+    47: I14F50 => I14F50, Full;
+    48: I13F51 => I13F51, Full;
+    49: I12F52 => I12F52, Full;
+    50: I11F53 => I11F53, Full;
+    51: I10F54 => I10F54, Full;
+    52: I104F24 => I104F24, Full;
+    53: I103F25 => I103F25, Full;
+    54: I102F26 => I102F26, Full;
+    55: I101F27 => I101F27, Full;
+    56: I100F28 => I100F28, Full;
+    57: I99F29 => I99F29, Full;
+    58: I98F30 => I98F30, Full;
+    59: I97F31 => I97F31, Full;
+    60: I95F33 => I95F33, Full;
+    61: I94F34 => I94F34, Full;
+    62: I93F35 => I93F35, Full;
+    63: I92F36 => I92F36, Full;
+    64: I91F37 => I91F37, Full;
+    65: I90F38 => I90F38, Full;
+    66: I89F39 => I89F39, Full;
+    67: I88F40 => I88F40, Full;
+    68: I87F41 => I87F41, Full;
+    69: I86F42 => I86F42, Full;
+    70: I85F43 => I85F43, Full;
+    71: I84F44 => I84F44, Full;
+    72: I83F45 => I83F45, Full;
+    73: I82F46 => I82F46, Full;
+    74: I81F47 => I81F47, Full;
+    75: I80F48 => I80F48, Full;
+    76: I79F49 => I79F49, Full;
+    77: I78F50 => I78F50, Full;
+    78: I77F51 => I77F51, Full;
+    79: I76F52 => I76F52, Full;
+    80: I75F53 => I75F53, Full;
+    81: I74F54 => I74F54, Full;
+    82: I73F55 => I73F55, Full;
+    83: I72F56 => I72F56, Full;
+    84: I71F57 => I71F57, Full;
+    85: I70F58 => I70F58, Full;
+    86: I69F59 => I69F59, Full;
+    87: I68F60 => I68F60, Full;
+    88: I67F61 => I67F61, Full;
+    89: I66F62 => I66F62, Full;
+    90: I65F63 => I65F63, Full;
+    91: I63F65 => I63F65, Full;
+    92: I62F66 => I62F66, Full;
+    93: I61F67 => I61F67, Full;
+    94: I60F68 => I60F68, Full;
+    95: I59F69 => I59F69, Full;
+    96: I58F70 => I58F70, Full;
+    97: I57F71 => I57F71, Full;
+    98: I56F72 => I56F72, Full;
+    99: I55F73 => I55F73, Full;
+    100: I54F74 => I54F74, Full;
+    101: I53F75 => I53F75, Full;
+    102: I52F76 => I52F76, Full;
+    103: I51F77 => I51F77, Full;
+    104: I50F78 => I50F78, Full;
+    105: I49F79 => I49F79, Full;
+    106: I48F80 => I48F80, Full;
+    107: I47F81 => I47F81, Full;
+    108: I46F82 => I46F82, Full;
+    109: I45F83 => I45F83, Full;
+    110: I44F84 => I44F84, Full;
+    111: I43F85 => I43F85, Full;
+    112: I42F86 => I42F86, Full;
+    113: I41F87 => I41F87, Full;
+    114: I39F89 => I39F89, Full;
+    115: I38F90 => I38F90, Full;
+    116: I37F91 => I37F91, Full;
+    117: I36F92 => I36F92, Full;
+    118: I35F93 => I35F93, Full;
+    119: I34F94 => I34F94, Full;
+    120: I33F95 => I33F95, Full;
+    121: I32F96 => I32F96, Full;
+    122: I31F97 => I31F97, Full;
+    123: I30F98 => I30F98, Full;
+    124: I29F99 => I29F99, Full;
+    125: I28F100 => I28F100, Full;
+    126: I27F101 => I27F101, Full;
+    127: I26F102 => I26F102, Full;
+    128: I25F103 => I25F103, Full;
+    129: I24F104 => I24F104, Full;
+    130: I23F105 => I23F105, Full;
+    131: I22F106 => I22F106, Full;
+    132: I21F107 => I21F107, Full;
+    133: I20F108 => I20F108, Full;
+    134: I19F109 => I19F109, Full;
+    135: I18F110 => I18F110, Full;
+    136: I17F111 => I17F111, Full;
+    137: I16F112 => I16F112, Full;
+    138: I15F113 => I15F113, Full;
+    139: I14F114 => I14F114, Full;
+    140: I13F115 => I13F115, Full;
+    141: I12F116 => I12F116, Full;
+    142: I11F117 => I11F117, Full;
+    143: I10F118 => I10F118, Full;
+    144: I9F23 => I33F31, Cross;
+    145: I33F31 => I42F86, Cross;
+    146: I24F40 => I28F100, Cross;
+    147: U33F31 => U33F31, USqrt;
+    148: U42F86 => U42F86, USqrt;
+    149: U33F31 => I42F86, UI;
 }
 
 pub fn accepts(pk: PK, op: u16) -> bool {
